@@ -241,6 +241,9 @@ def rule_lock_discipline(ctx, rep, rid, methods=('emit', 'flush')):
             # guard live across the call: the guard local is dropped only after the call
             drops = [bi for bi, blk in enumerate(b.blocks) if blk['term']['k'] == 'drop' and 'MutexGuard' in blk['term']['ty']
                      and not blk['cleanup']]
+            # an explicit `drop(guard)` releases it as well
+            drops += [bi for bi, t_ in b.calls() if not b.blocks[bi]['cleanup'] and callee_is(t_, 'core::mem::drop') and
+                      any('MutexGuard' in a_ for a_ in t_.get('callee_args', []))]
             early = [d for d in drops if ops[0] in reach(b, [d])]
             rep.ob(rid, inst + '/guard-held-across-call', not early and bool(drops), b.where(drops[0]) if drops else b.where(),
                    'guard dropped after the writer call' if not early and drops else 'the lock guard is released before the writer call')
